@@ -130,14 +130,14 @@ let dispatch fn args = match fn, args with
     let c = cparams_of ~aenc:ident_fn ~adec:ident_fn key "false" r obj gen in
     res_obj (decryptDeep (decryptBytes c) (parse_obj tree))
   (* writer dispatch (C23): kind = obj | stream | lazy *)
-  | "writeIobj", [kind; tree; filters; raw; to_os; obj; gen; key; r] ->
+  | "writeIobj", [kind; tree; filters; raw; to_os; obj; gen; key; r; keyed] ->
     let c = cparams_of ~aenc:ident_fn ~adec:ident_fn key "false" r obj gen in
     let io = (match kind with
         | "obj" -> IObj (parse_obj tree)
         | "lazy" -> ILazy (parse_obj tree)
         | "stream" -> IStream (parse_dict tree, names_of filters, bytes_of_hex raw)
         | _ -> failwith "kind") in
-    (match write_iobj (encryptBytes c []) (encryptStream c []) (bool_of_str to_os) io with
+    (match write_iobj (bool_of_str keyed) (encryptBytes c []) (encryptStream c []) (bool_of_str to_os) io with
      | Ok e -> "ok:" ^ show_emitted e | Err -> "err")
   | "permBytes", [p] -> res_bytes (permissionBytes (z_of_hex p))
   | "permsBlock", [p; emd] -> res_bytes (permsBlock (z_of_hex p) (bool_of_str emd))
